@@ -22,6 +22,7 @@ verus! {
 //%item tokeniser.rs MatchSym pub enum MatchSym
 //%item tokeniser.rs Token pub enum Token
 //%item tokeniser.rs impl_Token impl Token \{
+//%include spec/lex.rs
 //%item tokeniser.rs Tokeniser pub trait Tokeniser
 //%item tokeniser.rs impl_Tokeniser impl Tokeniser for String
 //%item tokeniser.rs consume_while fn consume_while
